@@ -36,7 +36,8 @@ var initials = map[string]string{
 	"couple-child": "0 @I1@ INDI\n1 NAME Ann /Ash/\n1 SEX F\n1 BIRT\n2 DATE 1 Jan 1850\n1 FAMS @F1@\n" +
 		"0 @I2@ INDI\n1 NAME Bob /Birch/\n1 SEX M\n1 BIRT\n2 DATE 2 Feb 1848\n1 FAMS @F1@\n" +
 		"0 @I3@ INDI\n1 NAME Cy /Birch/\n1 BIRT\n2 DATE 3 Mar 1875\n1 FAMC @F1@\n" +
-		"0 @F1@ FAM\n1 HUSB @I2@\n1 WIFE @I1@\n1 CHIL @I3@\n",
+		// the CHIL line has sub-lines of its own (as Family Tree Maker / Ancestry exports write them)
+		"0 @F1@ FAM\n1 HUSB @I2@\n1 WIFE @I1@\n1 CHIL @I3@\n2 _FREL Natural\n2 _MREL Natural\n",
 	// Bob's first spouse is living (born recently, no death), his second is not
 	"shared-spouse": "0 @I1@ INDI\n1 NAME Ann /Ash/\n1 BIRT\n2 DATE 1 Jan 1995\n1 FAMS @F1@\n" +
 		"0 @I2@ INDI\n1 NAME Bob /Birch/\n1 BIRT\n2 DATE 2 Feb 1848\n1 FAMS @F1@\n1 FAMS @F2@\n" +
@@ -359,6 +360,12 @@ func ops() []operation {
 		nd := gedcom.CompareNodes(is[0], is[len(is)-1])
 		nd.Sort()
 		_ = nd.String()
+		// families too: their HUSB/WIFE/CHIL entries are nodes that know their family
+		if fs := d.Families(); len(fs) > 0 {
+			fd := gedcom.CompareNodes(fs[0], fs[len(fs)-1])
+			fd.Sort()
+			_ = fd.String()
+		}
 		return true
 	})
 	add("copy-out(DeepCopy,Filter,Flatten)", "read", func(d *gedcom.Document) bool {
